@@ -24,7 +24,7 @@ def atom_strategy(allow_special):
     return st.fixed_dictionaries({
         "el": st.integers(0, 93), "x": st.tuples(gen, gen, gen).map(list), "g": st.tuples(gi, gi, gi).map(list),
         "special": st.sampled_from([0, 0, 1, 2]) if allow_special else st.just(0),
-        "occ": st.one_of(S.fl(0.01, 1.0), st.just(1.0)),
+        "occ": st.one_of(S.fl(0.01, 1.0), st.just(1.0), st.just(0.0)) if allow_special else st.one_of(S.fl(0.01, 1.0), st.just(1.0)),
         "adp": st.sampled_from(["Uiso", "Uani", "none"]), "uiso": S.fl(0.002, 0.1),
         "M": st.lists(S.fl(-0.03, 0.03), min_size=9, max_size=9), "eps": S.logfl(1e-5, 1e-3),
         "uform": st.sampled_from(["full", "full", "full", "diagonal", "equal-diagonal"]), "umag": st.sampled_from([1.0, 1.0, 1.0, 3.0, 10.0, 25.0]),
